@@ -211,6 +211,10 @@ class Engine:
             if cond:
                 return True, None
             return False, self.get_model()
+        cond = z3.simplify(cond)
+        if z3.is_true(cond):
+            self.stats["trivial"] = self.stats.get("trivial", 0) + 1
+            return True, None
         if self.check(z3.Not(cond)):
             return False, self.solver.model()
         return True, None
